@@ -134,6 +134,10 @@ var byteRepl = []func(b byte) byte{
 	func(b byte) byte { return b ^ 0x80 },
 }
 
+// oddSpaces: white space in the eyes of unicode.IsSpace (strings.Fields, TrimSpace)
+// but not of a byte-wise ASCII test, and vice versa.
+var oddSpaces = []string{"\u00a0", "\u3000", "\u0085", "\u2028", " \u00a0 ", "\v\f", "\ufeff", "\x1c\x1f"}
+
 var allBytes = func() []func(b byte) byte {
 	var fs []func(b byte) byte
 	for v := 0; v < 256; v++ {
@@ -436,6 +440,37 @@ func Enumerate(corpus []*CorpusFile, tier string, seed uint64, visit func(idx in
 							data = append(data, base[ln[1]:]...)
 							return mkCase(dec, f, data, []string{fmt.Sprintf("%s@%d", name, ln[0])}, d)
 						})
+					}
+				}
+				// every line replaced by, or given a neighbour line made of, white space
+				// that only some routines recognise (Unicode spaces, BOM, vertical tab)
+				for li, ln := range lineSpans(base[:asciiPart(kind, f, base)]) {
+					ln := ln
+					if f.Big && li > 40 && li%53 != 0 {
+						continue
+					}
+					for wi, ws := range oddSpaces {
+						ws := ws
+						for _, insert := range []bool{false, true} {
+							insert := insert
+							h := choice.Derive(hseed, fmt.Sprint("ws", li, wi, insert))
+							modes := deliveryModes(len(base), h)
+							d := modes[0]
+							if h%4 == 0 {
+								d = modes[1+int((h>>8)%7)]
+							}
+							emit("ODD-SPACE", func() *Case {
+								data := append([]byte(nil), base[:ln[0]]...)
+								data = append(data, ws...)
+								data = append(data, '\n')
+								if insert {
+									data = append(data, base[ln[0]:]...)
+								} else {
+									data = append(data, base[ln[1]:]...)
+								}
+								return mkCase(dec, f, data, []string{fmt.Sprintf("ODD-SPACE-LINE@%d=%q insert=%v", ln[0], ws, insert)}, d)
+							})
+						}
 					}
 				}
 				// every structurally located field
